@@ -108,6 +108,9 @@ structure Cfg where
   /-- TLS 1.3 middlebox compatibility (non-empty legacy session id): affects only what is SENT;
       `_middlebox_compat_mode` (tolerating a received CCS) is on during every handshake -/
   compat : Bool
+  /-- TLS 1.3: the client holds a certificate and key: it offers post_handshake_auth
+      (`_client_keypair` / `_pha_supported`) and its post-handshake Certificate is not empty -/
+  keypair : Bool
   deriving DecidableEq, Repr, Inhabited
 
 namespace Cfg
@@ -129,7 +132,7 @@ def valid (c : Cfg) : Bool :=
       (c.kx == .dhe || c.kx == .ecdhe || c.kx == .psk) && !c.tickets && !c.npn &&
       c.resume != .sessionId && (c.kx != .psk || c.resume == .none)
     else
-      c.kx != .psk && !c.hrr && !c.compCert && !c.compat) &&
+      c.kx != .psk && !c.hrr && !c.compCert && !c.compat && !c.keypair) &&
   (c.ver != .ssl3 || (!c.tickets && c.resume != .ticket && !c.hb)) &&
   (!c.clientCert || c.reqCert) &&
   (!c.reqCert || (if c.isTls13 then !c.pskMode else c.certReqKx && !c.resumed))
@@ -156,6 +159,10 @@ inductive St
   | s13WaitCert | s13WaitCV | s13WaitFin
   -- `_handshakeDone` reached: reads come from `readAsync`
   | done
+  -- TLS 1.3 server inside `_handle_srv_pha` (the client's post-handshake authentication flight)
+  | phaWaitCV | phaWaitFin
+  -- `_decrefAsync` with `closeSocket = False`: close_notify sent, waiting for the peer's alert
+  | closing
   -- connection shut down (fatal alert sent, or alert received)
   | dead
   deriving DecidableEq, Repr, Inhabited
@@ -169,18 +176,28 @@ def St.name : St → String
   | .sWaitCKE b => if b then "sWaitCKE+cv" else "sWaitCKE" | .sWaitCV => "sWaitCV"
   | .gfFirst => "gfFirst" | .gfCCS => "gfCCS" | .gfNP => "gfNP" | .gfFin => "gfFin"
   | .s13WaitCert => "s13WaitCert" | .s13WaitCV => "s13WaitCV" | .s13WaitFin => "s13WaitFin"
-  | .done => "done" | .dead => "dead"
+  | .done => "done" | .phaWaitCV => "phaWaitCV" | .phaWaitFin => "phaWaitFin" | .closing => "closing"
+  | .dead => "dead"
+
+/-- the handshake is over (`_handshakeDone` was reached) and the connection is not shut down -/
+def St.isPost : St → Bool
+  | .done | .phaWaitCV | .phaWaitFin | .closing => true
+  | _ => false
 
 inductive Alert
   | unexpected_message | illegal_parameter | unsupported_extension
   /-- the record did not pass the record layer under the current read keys (bad_record_mac,
       decryption_failed, record_overflow, or garbage that no longer parses) -/
   | wrong_epoch
+  /-- handshake bytes were glued to an unrelated incomplete fragment in the defragmenter: what is
+      parsed is garbage (some fatal alert, or an endless wait for the rest of a bogus length) -/
+  | garbled
   deriving DecidableEq, Repr, Inhabited
 
 def Alert.name : Alert → String
   | .unexpected_message => "unexpected_message" | .illegal_parameter => "illegal_parameter"
   | .unsupported_extension => "unsupported_extension" | .wrong_epoch => "wrong_epoch"
+  | .garbled => "garbled"
 
 /-- what `_getMsg` + the calling flow do with one incoming message -/
 inductive Out
@@ -194,8 +211,15 @@ inductive Out
   | warn
   /-- application data handed to the caller (only from `readAsync`) -/
   | deliver
-  /-- post-handshake message processed by `readAsync` (NewSessionTicket, KeyUpdate) -/
-  | post
+  /-- post-handshake message processed by `readAsync` / the close-wait loop (NewSessionTicket,
+      KeyUpdate, CertificateRequest, discarded data); `bump`: KeyUpdate installs new read keys -/
+  | post (bump : Bool)
+  /-- TLS 1.3 server: the Certificate of a post-handshake authentication flight was handed out and
+      its CertificateRequest popped from `_cert_requests`; `_handle_srv_pha` goes on in state `s` -/
+  | phaStart (s : St)
+  /-- the first part of a fragmented handshake message went into the defragmenter; nothing reaches
+      `_getMsg` yet -/
+  | buffer (k : MsgKind)
   /-- `_sendError`: fatal alert, connection closed -/
   | abort (a : Alert)
   /-- an alert was received: connection closed, `TLSRemoteAlert` raised, no fatal alert of ours -/
@@ -349,29 +373,98 @@ def stepHs (c : Cfg) (s : St) (k : MsgKind) : HsOut :=
       | some (.go s' b) => .next s' b
       | some (.reject a) => .acceptAbort a
 
-/-- `_getMsg` called from `readAsync` on an established connection:
-    ≤ 1.2: `expectedType = application_data`; TLS 1.3: `(application_data, handshake)` with
-    `secondaryType = (new_session_ticket, key_update)` on a client, `(key_update,)` on a server
-    (post-handshake authentication not modelled) -/
-def stepDone (c : Cfg) (k : MsgKind) : Out :=
+/-- the outcomes possible on an established connection (`readAsync`, `_handle_srv_pha`, the
+    close-wait loop): by construction none of them leads back into the handshake -/
+inductive PostOut
+  | peerClosed | acceptClosed
+  | abort (a : Alert)
+  | deliver | ignore | warn
+  | post (bump : Bool)
+  /-- Certificate of an authentication flight taken; `cv`: a CertificateVerify has to follow -/
+  | phaStart (cv : Bool)
+  /-- CertificateVerify of the flight taken -/
+  | phaCV
+  /-- Finished of the flight taken: back to `readAsync` -/
+  | phaFin
+  deriving DecidableEq, Repr, Inhabited
+
+def PostOut.toOut : PostOut → Out
+  | .peerClosed => .peerClosed
+  | .acceptClosed => .acceptClosed
+  | .abort a => .abort a
+  | .deliver => .deliver
+  | .ignore => .ignore
+  | .warn => .warn
+  | .post b => .post b
+  | .phaStart cv => .phaStart (if cv then .phaWaitCV else .phaWaitFin)
+  | .phaCV => .next .phaWaitFin false
+  | .phaFin => .next .done false
+
+/-- a renegotiation attempt: HelloRequest to a client, ClientHello to a server -/
+def renegAttempt (c : Cfg) (k : MsgKind) : Bool :=
+  (c.role == .client && k == .hello_request) || (c.role == .server && k == .client_hello)
+
+/-- `_getMsg` called from `readAsync` on an established connection.
+    ≤ 1.2: `expectedType = application_data`.  TLS 1.3: `(application_data, handshake)` and
+    `secondaryType` by role: a client with a key pair `(new_session_ticket, key_update,
+    certificate_request)`, a server with outstanding CertificateRequests `(key_update, certificate
+    [, compressed_certificate])`, another client `(new_session_ticket, key_update)`, another server
+    `(key_update,)`.  `outstanding` = `len(self._cert_requests)`. -/
+def stepDone (c : Cfg) (outstanding : Nat) (k : MsgKind) : PostOut :=
   if k.isAlert then .peerClosed
   else if k == .ccs then .abort .unexpected_message   -- 1.3: compat mode is off once the handshake is over
   else if k == .app_data then .deliver
   else if k == .empty_app_data then .ignore
   else if k == .heartbeat then (if c.hb then .ignore else .abort .unexpected_message)
   else if c.isTls13 then
-    (if k == .key_update || (k == .new_session_ticket && c.role == .client) then .post
-     else .abort .unexpected_message)   -- only a client reads session tickets
+    if k == .key_update then .post true                -- `_handle_keyupdate_request`: new read keys
+    else if c.role == .client then
+      if k == .new_session_ticket then .post false
+      else if k == .certificate_request && c.keypair then .post false   -- `_handle_pha`: answers, reads nothing
+      else .abort .unexpected_message
+    else
+      -- `_handle_srv_pha`: CertificateVerify follows iff the chain is not empty
+      if outstanding > 0 && (k == .certificate || (k == .compressed_certificate && c.compCert))
+      then .phaStart c.keypair
+      else .abort .unexpected_message
   else
     -- handshake is an unexpected content type: a renegotiation attempt is refused politely
     -- (`self.session` set and `not self.closed`): no_renegotiation warning, message dropped
-    if (c.role == .client && k == .hello_request) || (c.role == .server && k == .client_hello)
-    then .warn else .abort .unexpected_message
+    if renegAttempt c k then .warn else .abort .unexpected_message
+
+/-- `_getMsg(ContentType.handshake, certificate_verify | finished)` inside `_handle_srv_pha`
+    (TLS 1.3 server, compat mode off): everything else ends the connection -/
+def stepPha (c : Cfg) (cv : Bool) (k : MsgKind) : PostOut :=
+  if k.isAlert then .peerClosed
+  else if k == .heartbeat then (if c.hb then .ignore else .abort .unexpected_message)
+  else if cv && k == .certificate_verify then .phaCV
+  else if !cv && k == .finished then .phaFin
+  else .abort .unexpected_message
+
+/-- the close-wait loop of `_decrefAsync` (`closeSocket = False`): `_getMsg((alert,
+    application_data[, handshake]), (new_session_ticket?, key_update))` until an alert arrives;
+    data is thrown away, in ≤ 1.2 a renegotiation attempt still gets the polite warning
+    (`self.closed` is still False) -/
+def stepClosing (c : Cfg) (k : MsgKind) : PostOut :=
+  if k.isAlert then .acceptClosed
+  else if k == .ccs then .abort .unexpected_message
+  else if k == .app_data then .post false
+  else if k == .empty_app_data then .ignore
+  else if k == .heartbeat then (if c.hb then .ignore else .abort .unexpected_message)
+  else if c.isTls13 then
+    if k == .key_update then .post true
+    else if k == .new_session_ticket && c.role == .client then .post false
+    else .abort .unexpected_message
+  else
+    if renegAttempt c k then .warn else .abort .unexpected_message
 
 /-- `_getMsg` before the alignment check -/
-def stepK0 (c : Cfg) (s : St) (k : MsgKind) : Out :=
+def stepK0 (c : Cfg) (s : St) (outstanding : Nat) (k : MsgKind) : Out :=
   match s with
-  | .done => stepDone c k
+  | .done => (stepDone c outstanding k).toOut
+  | .phaWaitCV => (stepPha c true k).toOut
+  | .phaWaitFin => (stepPha c false k).toOut
+  | .closing => (stepClosing c k).toOut
   | .dead => .abort .unexpected_message        -- unreachable: `feed` stops at `dead`
   | _ => (stepHs c s k).toOut
 
@@ -382,7 +475,7 @@ def mustAlign : MsgKind → Bool
 
 /-- the message passed the content-type and handshake-type gate -/
 def Out.accepted : Out → Bool
-  | .next _ _ | .acceptAbort _ | .post => true
+  | .next _ _ | .acceptAbort _ | .post _ | .phaStart _ => true
   | _ => false
 
 /-- the first hello of a TLS 1.3 handshake: `_getMsg` cannot check its alignment (the version is
@@ -391,40 +484,39 @@ def Out.accepted : Out → Bool
 def firstHello (c : Cfg) (s : St) (k : MsgKind) : Bool :=
   c.isTls13 && ((s == .cWaitSH && k == .server_hello) || (s == .sWaitCH && k == .client_hello))
 
-/-- `_getMsg` on a record that passed the record layer; `plus` = further handshake bytes follow in
-    the same record (the defragmenter is not empty after this message) -/
-def stepK (c : Cfg) (s : St) (k : MsgKind) (plus : Bool) : Out :=
-  let o := stepK0 c s k
+/-- `_getMsg` on a complete message / record that passed the record layer; `plus` = further
+    handshake bytes follow in the same record (the defragmenter is not empty after this message) -/
+def stepK (c : Cfg) (s : St) (outstanding : Nat) (k : MsgKind) (plus : Bool) : Out :=
+  let o := stepK0 c s outstanding k
   if plus && v13Active c s && mustAlign k && o.accepted then .abort .unexpected_message
   else if plus && firstHello c s k then .acceptAbort .unexpected_message
   else o
 
-/-- one incoming message as the record layer sees it -/
+/-- which part of a handshake message a piece of a record carries -/
+inductive Part
+  | whole
+  /-- the first bytes only: the message stays incomplete in the defragmenter -/
+  | head
+  /-- the remaining bytes of the message whose head is buffered -/
+  | tail
+  deriving DecidableEq, Repr, Inhabited
+
+/-- one piece of an incoming record as the record layer and the defragmenter see it: a complete
+    message, or the head / the tail of a fragmented handshake message.  A record is a run of pieces
+    of one key epoch, each but the last marked `plus`. -/
 structure Msg where
   kind : MsgKind
   /-- index of the peer's write state under which the record was protected -/
   epoch : Nat
-  /-- another handshake message follows inside the same record -/
+  /-- further handshake bytes follow inside the same record -/
   plus : Bool := false
+  part : Part := .whole
   deriving DecidableEq, Repr, Inhabited
-
-/-- the record layer lets the record through under the current read state: same key epoch, or a
-    TLS 1.3 ChangeCipherSpec (never protected, RFC 8446 §5), or — TLS 1.3 only — an unprotected
-    alert while nothing has been decrypted yet under the current read keys and the handshake is
-    not finished (`recvRecord`: `len(data) < 3 and plaintext_alerts_ok and _readState.seqnum == 0`;
-    `_handshakeDone` clears `plaintext_alerts_ok`) -/
-def epochOk (c : Cfg) (s : St) (readEpoch recsInEpoch : Nat) (m : Msg) : Bool :=
-  m.epoch == readEpoch ||
-  (v13Active c s && m.kind == .ccs) ||
-  (v13Active c s && s != .done && m.kind.isAlert && m.epoch == 0 && recsInEpoch == 0)
-
-def step (c : Cfg) (s : St) (readEpoch recsInEpoch : Nat) (m : Msg) : Out :=
-  if epochOk c s readEpoch recsInEpoch m then stepK c s m.kind m.plus else .abort .wrong_epoch
 
 /-- observable state of the endpoint -/
 structure Run where
   st : St
-  /-- number of `_changeReadState` calls so far -/
+  /-- number of read-key changes so far (`_changeReadState`, KeyUpdate) -/
   epoch : Nat := 0
   /-- records unprotected under the current read state so far (its sequence number) -/
   recsInEpoch : Nat := 0
@@ -444,7 +536,43 @@ structure Run where
   accAtDone : Nat := 0
   /-- `self.closed` -/
   closed : Bool := true
+  /-- TLS 1.3 server: CertificateRequests sent by `request_post_handshake_auth` and not yet answered -/
+  outstanding : Nat := 0
+  /-- the defragmenter holds the head of a handshake message of this kind -/
+  pending : Option MsgKind := none
   deriving DecidableEq, Repr, Inhabited
+
+/-- the TLS 1.3 compatibility CCS is dropped before anything else is looked at -/
+def ccsDropped (c : Cfg) (s : St) (k : MsgKind) : Bool :=
+  k == .ccs && v13Active c s && expectsHandshake c s && !s.isPost
+
+/-- the record layer lets the record through under the current read state: same key epoch, or a
+    TLS 1.3 ChangeCipherSpec (never protected, RFC 8446 §5), or — TLS 1.3 only — an unprotected
+    alert while nothing has been decrypted yet under the current read keys and the handshake is
+    not finished (`recvRecord`: `len(data) < 3 and plaintext_alerts_ok and _readState.seqnum == 0`;
+    `_handshakeDone` clears `plaintext_alerts_ok`) -/
+def epochOk (c : Cfg) (r : Run) (m : Msg) : Bool :=
+  m.epoch == r.epoch ||
+  (v13Active c r.st && m.kind == .ccs) ||
+  (v13Active c r.st && !r.st.isPost && m.kind.isAlert && m.epoch == 0 && r.recsInEpoch == 0)
+
+/-- record layer, defragmenter (`_getNextRecord`) and `_getMsg` on one piece -/
+def step (c : Cfg) (r : Run) (m : Msg) : Out :=
+  if !epochOk c r m then .abort .wrong_epoch
+  else if m.kind.isHandshake then
+    -- handshake bytes are appended to the defragmenter buffer; complete messages come out;
+    -- bytes glued to / missing an unrelated incomplete fragment parse as garbage
+    if m.part == .head then (if r.pending.isNone then .buffer m.kind else .abort .garbled)
+    else if m.part == .tail then
+      (if r.pending == some m.kind then stepK c r.st r.outstanding m.kind m.plus else .abort .garbled)
+    else (if r.pending.isNone then stepK c r.st r.outstanding m.kind m.plus else .abort .garbled)
+  else
+    -- TLS 1.3: "Interleaved Handshake and non-handshake messages" (after the compatibility CCS was dropped)
+    if r.pending.isSome && v13Active c r.st && !ccsDropped c r.st m.kind then .abort .unexpected_message
+    -- ≤ 1.2: `_getFinished` takes the ChangeCipherSpec and then refuses to change the read state
+    -- while a handshake fragment is buffered ("ChangeCipherSpec inside a fragmented handshake message")
+    else if r.pending.isSome && m.kind == .ccs && expectsCCS c r.st then .acceptAbort .unexpected_message
+    else stepK c r.st r.outstanding m.kind false
 
 def start (c : Cfg) : Run := { st := if c.role == .client then .cWaitSH else .sWaitCH }
 
@@ -452,12 +580,15 @@ def apply (r : Run) : Out → Run
   | .next s bump =>
       let r' := { r with st := s, acc := r.acc + 1, epoch := if bump then r.epoch + 1 else r.epoch,
                          recsInEpoch := if bump then 0 else r.recsInEpoch }
-      if s == .done then { r' with hsDone := true, accAtDone := r'.acc, closed := false } else r'
+      if s.isPost && !r.hsDone then { r' with hsDone := true, accAtDone := r'.acc, closed := false } else r'
   | .acceptAbort a => { r with st := .dead, acc := r.acc + 1, alert := some a, closed := true }
   | .ignore => r
   | .warn => { r with warns := r.warns + 1 }
   | .deliver => { r with acc := r.acc + 1, delivered := r.delivered + 1 }
-  | .post => { r with acc := r.acc + 1 }
+  | .post bump => { r with acc := r.acc + 1, epoch := if bump then r.epoch + 1 else r.epoch,
+                           recsInEpoch := if bump then 0 else r.recsInEpoch }
+  | .phaStart s => { r with st := s, acc := r.acc + 1, outstanding := r.outstanding - 1 }
+  | .buffer k => { r with pending := some k }
   | .abort a => { r with st := .dead, alert := some a, closed := true }
   | .peerClosed => { r with st := .dead, peerClosed := true, closed := true }
   | .acceptClosed => { r with st := .dead, acc := r.acc + 1, peerClosed := true, closed := true }
@@ -467,8 +598,12 @@ def apply (r : Run) : Out → Run
 def countRecord (c : Cfg) (r : Run) (m : Msg) : Run :=
   if m.epoch == r.epoch && !(v13Active c r.st && m.kind == .ccs) then { r with recsInEpoch := r.recsInEpoch + 1 } else r
 
+/-- a tail piece that completes the buffered message empties the defragmenter -/
+def clearPending (r : Run) (m : Msg) : Run :=
+  if m.part == .tail && m.kind.isHandshake then { r with pending := none } else r
+
 def feed (c : Cfg) (r : Run) (m : Msg) : Run :=
-  if r.st == .dead then r else apply (countRecord c r m) (step c r.st r.epoch r.recsInEpoch m)
+  if r.st == .dead then r else apply (clearPending (countRecord c r m) m) (step c r m)
 
 def run (c : Cfg) (r : Run) (ms : List Msg) : Run := ms.foldl (feed c) r
 
@@ -478,12 +613,33 @@ def handshakeStart (r : Run) : Except String Run :=
   if !r.closed then .error "Renegotiation disallowed for security reasons"
   else .ok { st := r.st }
 
+/-- what happens to an established connection: a piece of a record arrives, or the local
+    application acts -/
+inductive Ev
+  | msg (m : Msg)
+  /-- the server application calls `request_post_handshake_auth` (raises unless TLS 1.3, server
+      role and the client offered post_handshake_auth; sends a CertificateRequest) -/
+  | requestPha
+  /-- the application calls `close()` with `closeSocket = False`: close_notify is sent and
+      `_decrefAsync` waits for the peer's alert -/
+  | close
+  deriving DecidableEq, Repr, Inhabited
+
+def feedEv (c : Cfg) (r : Run) : Ev → Run
+  | .msg m => feed c r m
+  | .requestPha =>
+      if r.st == .done && c.isTls13 && c.role == .server && c.keypair
+      then { r with outstanding := r.outstanding + 1 } else r
+  | .close => if r.st == .done then { r with st := .closing } else r
+
+def runEv (c : Cfg) (r : Run) (es : List Ev) : Run := es.foldl (feedEv c) r
+
 /-- the handshake part of a trace: `ms` is consumed completely and `_handshakeDone` is reached
     exactly by its last message -/
 def hsRun (c : Cfg) : Run → List Msg → Option Run
   | _, [] => none
   | r, m :: ms =>
-    if r.st == .dead || r.st == .done then none
+    if r.st == .dead || r.st.isPost then none
     else
       let r' := feed c r m
       if r'.st == .done then (if ms.isEmpty then some r' else none) else hsRun c r' ms
@@ -579,7 +735,99 @@ def allowed (c : Cfg) (t : List MsgKind) : Bool :=
     | k :: _ => !transparent c k) &&
   lang c (t.filter (fun k => !transparent c k))
 
-def kinds (ms : List Msg) : List MsgKind := ms.map (·.kind)
+/-- the messages of a trace of pieces: a fragmented message counts once, when its tail arrives -/
+def kinds (ms : List Msg) : List MsgKind :=
+  (ms.filter (fun m => !(m.part == .head && m.kind.isHandshake))).map (·.kind)
+
+/-! ## Post-handshake traffic (RFC side)
+
+  Written from RFC 8446 §4.6 (NewSessionTicket to the client only; post-handshake authentication:
+  CertificateRequest only to a client that offered post_handshake_auth, the client's answer
+  Certificate [CertificateVerify] Finished "MUST appear consecutively on the wire with no
+  intervening messages of other types"; KeyUpdate either way), RFC 5246 §7.4.1.1/§7.2.2 (a
+  renegotiation request may be ignored or refused with a no_renegotiation warning), RFC 6520
+  (heartbeat once negotiated), and the close_notify exchange (RFC 5246 §7.2.1 / RFC 8446 §6.1:
+  after sending close_notify an endpoint discards what still arrives until the peer's alert).
+  Not derived from `stepDone`/`stepPha`/`stepClosing`. -/
+
+/-- position in the post-handshake protocol; `n` = CertificateRequests of the server still unanswered -/
+inductive PSt
+  | idle (n : Nat)
+  /-- inside the client's authentication flight -/
+  | wantCV (n : Nat)
+  | wantFin (n : Nat)
+  /-- close_notify sent, waiting for the peer's -/
+  | closing (n : Nat)
+  /-- an alert arrived: the connection is over, nothing that follows is looked at -/
+  | ended
+  deriving DecidableEq, Repr, Inhabited
+
+inductive EvKind
+  | msg (k : MsgKind)
+  | requestPha
+  | close
+  deriving DecidableEq, Repr, Inhabited
+
+/-- is this event permitted at this point of an established connection, and where does it lead -/
+def postSpec (c : Cfg) : PSt → EvKind → Option PSt
+  | .ended, _ => some .ended
+  -- local actions
+  | .idle n, .requestPha =>
+      -- a CertificateRequest may only go to a client that offered post_handshake_auth (§4.6.2)
+      some (if c.isTls13 && c.role == .server && c.keypair then .idle (n + 1) else .idle n)
+  | .idle n, .close => some (.closing n)
+  | p, .requestPha => some p
+  | p, .close => some p
+  -- incoming
+  | .idle n, .msg k =>
+      if k.isAlert then some .ended
+      else if k == .app_data || k == .empty_app_data then some (.idle n)
+      else if k == .heartbeat then (if c.hb then some (.idle n) else none)
+      else if c.isTls13 then
+        if k == .key_update then some (.idle n)
+        else if c.role == .client then
+          if k == .new_session_ticket then some (.idle n)
+          else if k == .certificate_request then (if c.keypair then some (.idle n) else none)
+          else none
+        else if (k == .certificate || (k == .compressed_certificate && c.compCert)) && n > 0 then
+          some (if c.keypair then .wantCV (n - 1) else .wantFin (n - 1))
+        else none
+      else if renegAttempt c k then some (.idle n)
+      else none
+  | .wantCV n, .msg k =>
+      if k.isAlert then some .ended
+      else if k == .heartbeat then (if c.hb then some (.wantCV n) else none)
+      else if k == .certificate_verify then some (.wantFin n) else none
+  | .wantFin n, .msg k =>
+      if k.isAlert then some .ended
+      else if k == .heartbeat then (if c.hb then some (.wantFin n) else none)
+      else if k == .finished then some (.idle n) else none
+  | .closing n, .msg k =>
+      if k.isAlert then some .ended
+      else if k == .app_data || k == .empty_app_data then some (.closing n)
+      else if k == .heartbeat then (if c.hb then some (.closing n) else none)
+      else if c.isTls13 then
+        if k == .key_update then some (.closing n)
+        else if k == .new_session_ticket && c.role == .client then some (.closing n)
+        else none
+      else if renegAttempt c k then some (.closing n)
+      else none
+
+def postRun (c : Cfg) : PSt → List EvKind → Option PSt
+  | p, [] => some p
+  | p, e :: es => match postSpec c p e with
+    | none => none
+    | some p' => postRun c p' es
+
+/-- the events of a trace as the grammar sees them: a fragmented message counts once, at its tail -/
+def evKinds : List Ev → List EvKind
+  | [] => []
+  | .msg m :: es => if m.part == .head && m.kind.isHandshake then evKinds es else .msg m.kind :: evKinds es
+  | .requestPha :: es => .requestPha :: evKinds es
+  | .close :: es => .close :: evKinds es
+
+/-- `es` is a (prefix of a) permitted post-handshake event sequence with `n` requests outstanding -/
+def postAllowed (c : Cfg) (n : Nat) (es : List Ev) : Bool := (postRun c (.idle n) (evKinds es)).isSome
 
 /-! ## Encoding for the driver -/
 
@@ -595,23 +843,33 @@ def Resume.ofName : String → Option Resume
 def boolOfName : String → Option Bool
   | "0" => some false | "1" => some true | _ => none
 
-/-- `role,ver,kx,reqCert,clientCert,tickets,npn,hrr,resume,compCert,hb,compat` -/
+/-- `role,ver,kx,reqCert,clientCert,tickets,npn,hrr,resume,compCert,hb,compat,keypair` -/
 def Cfg.ofString (s : String) : Option Cfg :=
   match s.splitOn "," with
-  | [a, b, c, d, e, f, g, h, i, j, k, l] => do
+  | [a, b, c, d, e, f, g, h, i, j, k, l, kp] => do
     pure { role := ← Role.ofName a, ver := ← Ver.ofName b, kx := ← Kx.ofName c,
            reqCert := ← boolOfName d, clientCert := ← boolOfName e, tickets := ← boolOfName f,
            npn := ← boolOfName g, hrr := ← boolOfName h, resume := ← Resume.ofName i,
-           compCert := ← boolOfName j, hb := ← boolOfName k, compat := ← boolOfName l }
+           compCert := ← boolOfName j, hb := ← boolOfName k, compat := ← boolOfName l,
+           keypair := ← boolOfName kp }
   | _ => none
 
-/-- `kind`, `kind:epoch`, `kind:epoch+` -/
+/-- `kind`, `kind:epoch`, optionally followed by `+` (more handshake bytes in the record) and
+    `<` (head of the message) or `>` (tail): `finished:1+`, `key_update:1<`, `key_update:2>+` -/
 def Msg.ofString (s : String) : Option Msg :=
-  let plus := s.endsWith "+"
-  let s := if plus then String.ofList (s.toList.dropLast) else s
-  match s.splitOn ":" with
-  | [k] => do pure { kind := ← MsgKind.ofName k, epoch := 0, plus := plus }
-  | [k, e] => do pure { kind := ← MsgKind.ofName k, epoch := ← e.toNat?, plus := plus }
+  let cs := s.toList
+  let part := if cs.contains '<' then Part.head else if cs.contains '>' then Part.tail else Part.whole
+  let plus := cs.contains '+'
+  let core := String.ofList (cs.filter (fun ch => ch != '+' && ch != '<' && ch != '>'))
+  match core.splitOn ":" with
+  | [k] => do pure { kind := ← MsgKind.ofName k, epoch := 0, plus := plus, part := part }
+  | [k, e] => do pure { kind := ← MsgKind.ofName k, epoch := ← e.toNat?, plus := plus, part := part }
   | _ => none
+
+/-- `!pha` (request_post_handshake_auth), `!close`, or a piece -/
+def Ev.ofString (s : String) : Option Ev :=
+  if s == "!pha" then some .requestPha
+  else if s == "!close" then some .close
+  else (Msg.ofString s).map .msg
 
 end Tls.Order
